@@ -169,6 +169,7 @@ def run(case):
     members, n_al = case["members"], case["n_al"]
     coll = _mk_coll(members, n_al > 0)
     why, trace = [], []
+    earlier = []          # collections an edit was derived from (slice / select / copy), with their state at that time
     for op in case["ops"]:
         before = _state(coll)
         if not before["members"]:
@@ -176,7 +177,7 @@ def run(case):
         res, exc = None, None
         try:
             if op[0] == "slice":
-                its = Q.dec_items(op[1])
+                its = Q.np_ints(case["key"], Q.dec_items(op[1]))
                 item = its[0] if op[2] == "bare" else its
                 pre = {k: (coll[k], None if coll.aligned_axes is None else tuple(coll.aligned_axes[k])) for k in coll.keys()}
                 res = coll[item]
@@ -224,8 +225,14 @@ def run(case):
                     f = _slice_fail(pre, res, Q.dec_items(op[1]))
                     if f:
                         why.append(f)
+                earlier.append((coll, before, op[0]))
                 coll = res
             trace.append({"raised": False, "state": _state(coll)})
+            for old, old_state, how in earlier:
+                now = _state(old)
+                if now != old_state:
+                    why.append(f"{op[0]} on the result of an earlier {how} changed the collection it came from: {old_state} -> {now}")
+                    break
             f = _invariant_fail(coll)
             if f:
                 why.append(f)
